@@ -437,7 +437,10 @@ class C24(Prop):
             "stream with one track per converting branch (AC-3 at 44.1/48/32 kHz with 1..5 frames per unit, MPEG-4 Audio at "
             "44.1/48/32/22.05/8 kHz, LATM with/without in-band config, Opus, MPEG-1 Audio, KLV) x unit PTS (0, +-1, around the "
             "clock rate, 2^31, 2^32, 2^33, 2^40, negative, random) and the raw 33-bit PTS of every PES header is compared with "
-            "the exact conversion of that frame's position (KTs cases, classes `ts-out <track> [multi-frame-unit] [frame>0]`). "
+            "the exact conversion of that frame's position (KTs cases, classes `ts-out <track> [multi-frame-unit] [frame>0]`); the "
+            "MPEG-TS recorder is driven the same way (one real Recorder per track x start PTS, the recorded .ts parsed: KTsRec, "
+            "`ts-rec ...`) and so are the per-frame branches of rtmp.FromStream (AC-3, MPEG-4 Audio, Opus with mixed packet "
+            "durations; DTS of every message vs the exact conversion of the frame position: KRtmpDur, `rtmp-out ...`). "
             "Non-trivial = v != 0 (a != 0 for inline sites); distinct = distinct inputs")
     trusted_base = ["Coq 8.16.1 kernel + VM", "translator tools/gen/muldiv (go/ast; fails loudly outside the straight-line "
                     "integer fragment; validated on every run by running the real helpers against the translation)",
@@ -448,13 +451,19 @@ class C24(Prop):
                     "16000..48000 after a successful Unmarshal, format.MPEG1Audio.ClockRate() = 90000): re-validated on the real "
                     "libraries by every run (KFact cases); that the two sites only read a header after a successful Unmarshal is "
                     "by inspection",
-                    "generated in-package drivers"]
+                    "call-site inventory tools/gen/muldiv_calls (go/ast; syntactic: calls by helper name, locals resolved inside the "
+                    "enclosing closure) and the hand classification of the quantity column of Model/C24_CallSites.v",
+                    "generated in-package drivers + static end-to-end drivers (hand-written PES header parser: raw 33-bit PTS; "
+                    "gortmplib message types for the DTS)"]
     assumptions = ["Go int and time.Duration are 64-bit two's complement (wrap64)",
                    "inline sites are recognised by shape: an integer `x * y / z` (left operand of `/` is a `*`) with a time "
                    "unit, a literal clock rate or a ...Rate / ...TimeScale name among its operands; a scaling split over "
                    "several statements, done in floating point (playback/on_get.go: secs * float64(time.Second)) or by a "
                    "single operation (recorder/format_fmp4_segment.go: d / time.Millisecond) is listed in the translator "
                    "notes but not translated",
+                   "end-to-end coverage of the call sites: mpegts.FromStream, recorder.formatMPEGTS and the per-frame branches of "
+                   "rtmp.FromStream are run for real; the other inventoried call sites (webrtc, hls, rtmp to_stream, playback, fMP4 "
+                   "recorder) are tied and proved per row but an edit there is flagged without a concrete replay",
                    "recorder/format_fmp4.go `dt += SampleCount * time.Second / SampleRate` is proved over its translation "
                    "but cannot be driven: `dt` is never read"]
     manifest = dict(
